@@ -114,6 +114,21 @@ def run(tier='quick', seed=0):
     rng = np.random.RandomState(seed)
     n = 12 if tier == 'quick' else 120
     evals, failures, samples, distinct = 0, [], [], set()
+    # fixed histories, every seed: a rejected dict that also carries a valid name, followed by a partial update that does not mention
+    # that name (nothing of a rejected input may surface later), in three key styles
+    for fk, kind2 in enumerate(('dict-name', 'dict-model-symbol', 'dict-foreign-symbol')):
+        nP = 2 + fk
+        ops = [{'kind': 'pairs', 'vals': [6.0 + i for i in range(nP)], 'subset': list(range(nP)), 'perm': list(range(nP))[::-1]},
+               {'kind': 'bad-key', 'vals': [2.5] * nP, 'subset': [0], 'perm': list(range(nP))},
+               {'kind': kind2, 'vals': [3.25] * nP, 'subset': [nP - 1], 'perm': list(range(nP))}]
+        try:
+            bad = run_history(nP, ops)
+        except Exception as e:
+            bad = ["raises %s: %s" % (type(e).__name__, e)]
+        evals += 1
+        distinct.add((nP, tuple(o['kind'] for o in ops)))
+        if bad:
+            failures.append({'key': 'rejected-then-partial %s' % kind2, 'case': {'nP': nP, 'ops': ops}, 'observed': bad[:3]})
     for k in range(n):
         nP = int(rng.randint(1, 6)) if k % 4 else 2
         if nP == 1:
